@@ -11,6 +11,7 @@ package c16
 
 import (
 	"crypto/sha1"
+	"encoding/base64"
 	"encoding/hex"
 	"encoding/json"
 	"errors"
@@ -47,12 +48,16 @@ type fMsg struct {
 type fCase struct {
 	Graph   string `json:"graph"`
 	Hashed  bool   `json:"hashed"`
+	Smap    string `json:"smap"` // source map mode of the context: "off" | "plain" | "nested" | "nested-exclude" (ScanFaults!SmapModes)
 	Fault   fMsg   `json:"fault"`
 	Msgs    []fMsg `json:"msgs"`
 	Crashed bool   `json:"crashed"`
 }
 
 func (c fCase) id() string {
+	if c.Smap != "" && c.Smap != "off" {
+		return fmt.Sprintf("%s/hashed=%v/smap=%s/%s@%s", c.Graph, c.Hashed, c.Smap, c.Fault.Kind, c.Fault.At)
+	}
 	return fmt.Sprintf("%s/hashed=%v/%s@%s", c.Graph, c.Hashed, c.Fault.Kind, c.Fault.At)
 }
 
@@ -81,7 +86,7 @@ type faultOut struct {
 	Hung     int        `json:"hung"` // index of the case that did not return (-1: none)
 }
 
-func (g fGraph) files() map[string]string {
+func (g fGraph) files(smap string) map[string]string {
 	files := map[string]string{}
 	for _, m := range g.Modules {
 		var sb strings.Builder
@@ -93,6 +98,11 @@ func (g fGraph) files() map[string]string {
 			fmt.Fprintf(&sb, ", typeof v%d", k)
 		}
 		fmt.Fprintf(&sb, "] }\nconsole.log(v().length)\n")
+		if smap == "nested" || smap == "nested-exclude" {
+			// every module carries an input source map (the "nested" paths of the source-map workers)
+			m := fmt.Sprintf(`{"version":3,"sources":["%s.orig.ts"],"sourcesContent":["export function v() {}\n"],"names":[],"mappings":"AAAA;AACA"}`, m)
+			fmt.Fprintf(&sb, "//# sourceMappingURL=data:application/json;base64,%s\n", base64.StdEncoding.EncodeToString([]byte(m)))
+		}
 		files[m+".js"] = sb.String()
 	}
 	return files
@@ -213,11 +223,17 @@ func faultPlugin() api.Plugin {
 	}}
 }
 
-func faultOpts(dir string, g fGraph, hashed bool) api.BuildOptions {
+func faultOpts(dir string, g fGraph, hashed bool, smap string) api.BuildOptions {
 	o := api.BuildOptions{AbsWorkingDir: dir, Bundle: true, Outdir: "out", Write: false, LogLevel: api.LogLevelSilent, Format: api.FormatESModule,
 		Plugins: []api.Plugin{faultPlugin()}, EntryNames: "[name]"}
 	if hashed {
 		o.EntryNames = "[name]-[hash]"
+	}
+	if smap != "" && smap != "off" {
+		o.Sourcemap = api.SourceMapLinked
+		if smap == "nested-exclude" {
+			o.SourcesContent = api.SourcesContentExclude
+		}
 	}
 	for _, e := range g.Entries {
 		o.EntryPoints = append(o.EntryPoints, e+".js")
@@ -319,15 +335,28 @@ func runFaults(r *core.Run, in faultIn) (*faultOut, error) {
 		if !ok {
 			return nil, fmt.Errorf("unknown graph %s", cs.Graph)
 		}
-		dir := filepath.Join(in.Dir, fmt.Sprintf("g-%s-%v", g.Name, cs.Hashed))
-		ck := fmt.Sprintf("%s/%v", g.Name, cs.Hashed)
+		dir := filepath.Join(in.Dir, fmt.Sprintf("g-%s-%v-%s", g.Name, cs.Hashed, cs.Smap))
+		ck := fmt.Sprintf("%s/%v/%s", g.Name, cs.Hashed, cs.Smap)
 		if canon[ck] == "" {
 			os.RemoveAll(dir)
-			if err := core.WriteTree(dir, g.files()); err != nil {
+			if err := core.WriteTree(dir, g.files(cs.Smap)); err != nil {
 				return nil, err
 			}
 			fst.armed.Store(false)
-			res := api.Build(faultOpts(dir, g, cs.Hashed))
+			// the fault-free build of the graph is real-code behaviour too: it must return
+			cdone := make(chan api.BuildResult, 1)
+			go func() { cdone <- api.Build(faultOpts(dir, g, cs.Hashed, cs.Smap)) }()
+			var res api.BuildResult
+			select {
+			case res = <-cdone:
+			case <-time.After(90 * time.Second):
+				oc := fOutcome{Case: cs, Problem: "hang"}
+				oc.Case.Fault = fMsg{Kind: "none", At: "-"}
+				oc.Detail = fmt.Sprintf("the fault-free build of graph %s (source map mode %q) did not return within 90 s; goroutines: %s", g.Name, cs.Smap, strings.Join(pipelineGoroutines(), " || "))
+				out.Outcomes = append(out.Outcomes, oc)
+				out.Hung = ci
+				return out, nil
+			}
 			if len(res.Errors) > 0 {
 				return nil, fmt.Errorf("canonical build of %s fails: %s", g.Name, res.Errors[0].Text)
 			}
@@ -339,7 +368,7 @@ func runFaults(r *core.Run, in faultIn) (*faultOut, error) {
 		fst.hits.Store(0)
 		fst.canceled.Store(false)
 		fst.flagSet = make(chan struct{}, 1)
-		ctx, cerr := api.Context(faultOpts(dir, g, cs.Hashed))
+		ctx, cerr := api.Context(faultOpts(dir, g, cs.Hashed, cs.Smap))
 		if cerr != nil {
 			return nil, fmt.Errorf("context: %v", cerr.Errors)
 		}
@@ -435,7 +464,7 @@ func init() {
 // parent side
 
 func (c *ctx) faultViolation(oc fOutcome, graphs []fGraph, extra map[string]interface{}) {
-	key := map[string]interface{}{"family": "fault", "graph": oc.Case.Graph, "hashed": oc.Case.Hashed, "fault": oc.Case.Fault.Kind, "at": oc.Case.Fault.At, "problem": oc.Problem}
+	key := map[string]interface{}{"family": "fault", "graph": oc.Case.Graph, "hashed": oc.Case.Hashed, "smap": oc.Case.Smap, "fault": oc.Case.Fault.Kind, "at": oc.Case.Fault.At, "problem": oc.Problem}
 	detail := map[string]interface{}{"fault": oc.Case, "graphs": graphs, "observed": oc.Observed, "texts": oc.Texts, "detail": oc.Detail, "leaked": oc.Leaked}
 	for k, v := range extra {
 		detail[k] = v
@@ -544,9 +573,11 @@ func faults(c *ctx) {
 	r.Logf("ScanFaults: %d fault placements", len(uniq))
 	outs := c.runFaultCases(graphs, uniq, false)
 	byKind := map[string]int{}
+	bySmap := map[string]int{}
 	hit := 0
 	for i, oc := range outs {
 		byKind[oc.Case.Fault.Kind]++
+		bySmap[oc.Case.Smap]++
 		r.Case("fault:"+oc.Case.id(), oc.Case.Fault.Kind != "none")
 		r.AddTraces(1)
 		if oc.FaultHits > 0 {
@@ -568,6 +599,7 @@ func faults(c *ctx) {
 	}
 	r.Set("fault_placements_replayed", len(outs))
 	r.Set("fault_placements_by_kind", byKind)
+	r.Set("fault_placements_by_source_map_mode", bySmap)
 	r.Set("fault_placements_where_the_fault_was_injected", hit)
 }
 
